@@ -987,6 +987,68 @@ func c06Lines(c *Ctx, R string) {
 					}
 				}
 			}
+			if !folded {
+				// the case hands the field's last line to a local, and the statement after the switch
+				// raises the accumulator with that local: one fold for all cases
+				var carriers []types.Object
+				for j, top := range loop.Body.List {
+					sw, isSw := top.(*ast.SwitchStmt)
+					if !isSw {
+						continue
+					}
+					inside := false
+					for _, cc := range sw.Body.List {
+						if cc == ast.Stmt(blk) {
+							inside = true
+						}
+					}
+					if !inside {
+						continue
+					}
+					for _, after := range loop.Body.List[j+1:] {
+						if containsBranch(after) {
+							break
+						}
+						if as3, ok := after.(*ast.AssignStmt); ok && len(as3.Lhs) == 1 && isAccField(as3.Lhs[0], "Last") {
+							if call3, isCall := ast.Unparen(as3.Rhs[0]).(*ast.CallExpr); isCall && exprStr(call3.Fun) == "max" && len(call3.Args) == 2 {
+								for k, a := range call3.Args {
+									if isAccField(a, "Last") {
+										if o := objOf(info, call3.Args[1-k]); o != nil {
+											carriers = append(carriers, o)
+										}
+									}
+								}
+							}
+						}
+					}
+				}
+				for _, later := range blk.Body[i+1:] {
+					if containsBranch(later) {
+						break
+					}
+					as2, ok := later.(*ast.AssignStmt)
+					if !ok || len(as2.Lhs) != len(as2.Rhs) {
+						continue
+					}
+					for k, l := range as2.Lhs {
+						for _, car := range carriers {
+							if objOf(info, l) != car {
+								continue
+							}
+							m := false
+							ast.Inspect(as2.Rhs[k], func(x ast.Node) bool {
+								if id, ok := x.(*ast.Ident); ok && info.Uses[id] == lobj {
+									m = true
+								}
+								return true
+							})
+							if m && strings.HasSuffix(exprStr(as2.Rhs[k]), "Last") {
+								folded = true
+							}
+						}
+					}
+				}
+			}
 			role := typeQName(lobj.Type())
 			caseName := ""
 			if len(blk.List) == 1 {
